@@ -31,15 +31,16 @@ type item struct {
 }
 
 type session struct {
-	ID      int      `json:"id"`
-	Items   []item   `json:"items"`
-	Stdin   []string `json:"stdin"`
-	Mode    string   `json:"mode"`    // "used" (REPL: ByteCode, Run(true)) or "discard" (file: ByteCodeNoStck, Run(false))
-	Trace   bool     `json:"trace"`   // record per-instruction events
-	WantAst bool     `json:"wantast"` // include the parser's tree
-	Budget  int      `json:"budget"`  // VM instructions per item
-	WantBC  bool     `json:"wantbc"`  // include the decoded code and data segments and the entry of every item
-	Pregrow int      `json:"pregrow"` // grow the main operand stack to this many slots before the first item (it never reallocates afterwards)
+	ID       int      `json:"id"`
+	Items    []item   `json:"items"`
+	Stdin    []string `json:"stdin"`
+	Mode     string   `json:"mode"`     // "used" (REPL: ByteCode, Run(true)) or "discard" (file: ByteCodeNoStck, Run(false))
+	Trace    bool     `json:"trace"`    // record per-instruction events
+	WantAst  bool     `json:"wantast"`  // include the parser's tree
+	WantRast bool     `json:"wantrast"` // include the tree after the symbol-table rewrite
+	Budget   int      `json:"budget"`   // VM instructions per item
+	WantBC   bool     `json:"wantbc"`   // include the decoded code and data segments and the entry of every item
+	Pregrow  int      `json:"pregrow"`  // grow the main operand stack to this many slots before the first item (it never reallocates afterwards)
 }
 
 type budgetExceeded struct{ what string }
@@ -212,6 +213,9 @@ func (r *runner) runSession(s session) M {
 			for _, st := range ast {
 				phase = "rewrite"
 				st = st.STRewrite(node.SymTbl{})
+				if s.WantRast {
+					o["rast"] = rastJSON(st)
+				}
 				phase = "compile"
 				if cerr := node.Compile(st, cr, s.Mode == "discard"); cerr != nil {
 					o["kind"] = "cerr"
@@ -314,7 +318,6 @@ func cmdRun() {
 		}
 	}
 }
-
 
 var kindNames = []string{"inv", "imm", "gbl", "lcl", "cls", "stck", "tmp", "ds"}
 
